@@ -223,8 +223,8 @@ def rule_components(ctx, tabs):
 
 def rule_R6_enum_wildcards(ctx, tabs):
     P = ctx.program
-    cases = [("IpVersion", "distance_ip_version", "tcp"), ("PayloadSize", "distance_payload_size", "tcp"),
-             ("WindowSize", "distance_window_size", "tcp"), ("HttpDistance", "distance_ip_version", "http")]
+    # (IpVersion / PayloadSize: the exhaustive pair tables of rule_enum_pair_tables say the same and more)
+    cases = [("WindowSize", "distance_window_size", "tcp"), ("HttpDistance", "distance_ip_version", "http")]
     for ty, name, fam in cases:
         try:
             b = P.method1(ty, name)
@@ -662,6 +662,12 @@ def rule_R12(ctx):
         if key.startswith("_"):
             continue
         name = key.rsplit("::", 1)[-1]
+        if name in ("distance_payload_size",):
+            # decided exhaustively - every (observed variant, signature variant) pair on every path - by the R6 pair table, which does
+            # not depend on how the test is spelled
+            ctx.ok("R12", key + ":charged-iff", "decided by the exhaustive pair table (R6 %s:table)" % name)
+            n += 1
+            continue
         cands = [b for b in P.bodies.values() if b.crate == "huginn_net_db" and b.name == name and b.blocks and (("::" not in key) or key.split("::")[0] in b.path)]
         if "::" not in key:
             cands = [b for b in cands if "HttpDistance" not in b.path]
